@@ -105,7 +105,7 @@ theorem fromBcSnapNoReseat_seated (t0 : Rat) (L : List BcSnap) (hs : sortedSnaps
     (hb : ∀ b ∈ L, b.snap.beat = 0) (hm : ∀ b ∈ L, MetTie b) :
     ∃ tm, fromBcSnapNoReseat t0 L = .ok tm ∧ outPtsOff tm = outPts t0 L := by
   unfold fromBcSnapNoReseat
-  rw [isort_sorted L hs]
+  rw [rs_isort_sorted L hs]
   cases L with
   | nil => simp [firstZeroB] at h0
   | cons c rest =>
@@ -156,7 +156,7 @@ theorem fromBcSnap_reseat_keeps_times (t0 : Rat) (cs : List BcSnap) (hd : Dom ex
       rw [hpts, inPts_eq]; exact hint
     refine ⟨tm, ?_, hin⟩
     unfold fromBcSnap
-    rw [isort_sorted _ hs]
+    rw [rs_isort_sorted _ hs]
     have hnz : ¬ (b0.snap.measure ≠ 0 ∨ b0.snap.beat ≠ 0) := by simp [hf'.1, hf'.2]
     simp only [hnz, if_false]
     by_cases hany : ((b0 :: rest).any fun b => decide (b.snap.beat ≠ 0)) = true
